@@ -194,7 +194,13 @@ fn run_case(cx: &CaseCtx, rep: &mut Report) {
 		pmtiles_root_boundary_walk(cx, rep, &mut rng);
 		return;
 	}
-	let target = if (13..=15).contains(&cx.case) { "pmtiles" } else { TARGETS[(cx.case % 5) as usize] };
+	let target = if (13..=15).contains(&cx.case) {
+		"pmtiles"
+	} else if (16..=18).contains(&cx.case) {
+		"mbtiles"
+	} else {
+		TARGETS[(cx.case % 5) as usize]
+	};
 	let big = cx.case < 10 && (target == "pmtiles" || target == "versatiles") && cx.case < 5 * cx.tier.pick(1, 2);
 	let ts = if (13..=15).contains(&cx.case) {
 		// exactly 16383 / 16384 / 16385 directory entries: the writer's single-directory threshold
@@ -206,6 +212,17 @@ fn run_case(cx: &CaseCtx, rep: &mut Report) {
 			t.tiles.remove(k);
 		}
 		t.shape = format!("{} tiles at z9 (single-directory threshold)", t.tiles.len());
+		t
+	} else if (16..=18).contains(&cx.case) {
+		// 1999 / 2000 / 4001 tiles on one level: the MBTiles writer inserts in chunks of 2000
+		let n = [1999usize, 2000, 4001][(cx.case - 16) as usize];
+		let mut t = big_tileset(&mut rng, target);
+		t.tiles.retain(|k, _| k.0 == 9);
+		let keys: Vec<crate::gen::Key> = t.tiles.keys().cloned().collect();
+		for k in keys.iter().skip(n) {
+			t.tiles.remove(k);
+		}
+		t.shape = format!("{} tiles at z9 (insert-chunk boundary)", t.tiles.len());
 		t
 	} else if big {
 		big_tileset(&mut rng, target)
